@@ -6,6 +6,11 @@ ids = [p['id'] for p in props]
 
 # id -> (category, technique, text, note, design_ref)
 CHECKS = {
+ 'C15': ('fault_enumeration',
+         'model-based file-system property testing over generated projects and histories, plus enumerated injected kills at every output-touching system call',
+         'Generated scratch projects (path shapes, output-directory forms, file-name rule, binding mode, cwd) are run through the real qmluic binary and the tree difference is compared with the path model of the statement and with the in-process translation; generated edit/regenerate histories check that current outputs keep inode and mtime; for the kill clause a tracing run enumerates every system call that touches an output and the run is repeated once per call with SIGKILL delivered on entry to exactly that call (strace inject), after which each output must hold its complete old or complete new bytes.',
+         'Crash points are system-call boundaries of this process (not power loss); strace must be able to trace in the sandbox (the evidence says when it cannot and the kill part is skipped). Content expectations come from the library translation of the same text.',
+         'DESIGN.md section 3 C15'),
  'C07': ('exploration',
          'grammar-based generation + token-level mutation + token soup, outcome classifier as oracle, in isolated child processes; coverage-guided libFuzzer target for the thorough tier',
          'Well-formed documents from every generator of the framework, the same with 1-4 token-level mutations, and token soup are translated in all three modes through the preview path (semantic passes run on trees with ERROR/MISSING nodes) and every diagnostic is rendered with codespan; the classifier demands: no panic, output or a syntax error or an error diagnostic, all ranges inside the text on character boundaries, well-formed serialised output. Children with a per-case watchdog and a memory limit turn stack exhaustion, runaway allocation and hangs into violations with replay files; a sample and deep-nesting probes go through the real binary (exit status 0/1, no panic text).',
